@@ -31,7 +31,29 @@ from ..explore import procstate
 LEVEL = "model_checking"
 
 CFGS = [("I", "plain"), ("C", "plain"), ("I", "decl"), ("C", "decl"), ("I", "pkg"), ("C", "pkg")]
-EXPRS = ["x + 1", "a.b", "[1, 2].map(v, v + x)", "has(m.f) ? m.f : 0", "x > 1 || y", '"lit" + s']
+EXPRS = ["x + 1", "a.b", "[1, 2].map(v, v + x)", "has(m.f) ? m.f : 0", "x > 1 || y", '"lit" + s', "f(x)", "f(x)"]
+
+
+def hf1(x):
+    """host function variant 1 (expression id 6)"""
+    import celpy.celtypes as ct
+    return ct.IntType(int(x) + 10)
+
+
+def hf2(x):
+    """host function variant 2 (expression id 7)"""
+    import celpy.celtypes as ct
+    return ct.IntType(int(x) + 20)
+
+
+def functions_of(e):
+    return {6: {"f": hf1}, 7: {"f": hf2}}.get(e)
+
+
+def same_text(e):
+    """expression ids that share e's text (a program may be rebuilt from another program's AST)"""
+    return [e2 for e2 in range(len(EXPRS)) if EXPRS[e2] == EXPRS[e]]
+
 BINDS = [
     {},
     {"x": 1, "y": True, "s": "u"},
@@ -47,8 +69,8 @@ _ADDR = re.compile(r"0x[0-9a-fA-F]+")
 
 def alphabets(tier):
     if tier == "thorough":
-        return list(range(6)), list(range(6)), list(range(8))
-    return list(range(4)), list(range(4)), list(range(6))
+        return list(range(6)), list(range(8)), list(range(8))
+    return list(range(4)), [0, 1, 2, 3, 6, 7], list(range(6))
 
 
 def to_cel(v):
@@ -91,6 +113,7 @@ class World:
     def __init__(self):
         self.env = None
         self.env_cfg = None
+        self.env_gen = 0              # which environment object is current (an AST belongs to the environment that compiled it)
         self.progs = [None, None]     # (runner, cfg index, expr index) or ("failed", outcome, cfg, expr)
         self.last = [None, None]      # (bindings index, outcome)
 
@@ -98,6 +121,11 @@ class World:
         ev = [("env", c) for c in ci_set]
         if self.env is not None:
             ev += [("prog", t, e) for t in (0, 1) for e in ei_set]
+            # build a program in slot t from the AST object of the program in the other slot
+            for t in (0, 1):
+                o = self.progs[1 - t]
+                if o is not None and o[0] == "ok" and o[5] == self.env_gen:
+                    ev += [("reprog", t, e2) for e2 in same_text(o[3]) if e2 in ei_set]
         for t in (0, 1):
             if self.progs[t] is not None:
                 ev += [("eval", t, b) for b in bi_set]
@@ -109,6 +137,7 @@ class World:
         """Apply one event on the real objects; append violations (kind, detail-dict)."""
         k = ev[0]
         if k == "env":
+            self.env_gen += 1
             try:
                 self.env = make_env(ev[1])
                 self.env_cfg = ev[1]
@@ -121,17 +150,28 @@ class World:
             _k, t, e = ev
             try:
                 ast = self.env.compile(EXPRS[e])
-                self.progs[t] = ("ok", self.env.program(ast), self.env_cfg, e)
+                self.progs[t] = ("ok", self.env.program(ast, functions=functions_of(e)), self.env_cfg, e, ast, self.env_gen)
             except RecursionError as ex:
-                self.progs[t] = ("failed", ("X", "program", type(ex).__name__), self.env_cfg, e)
+                self.progs[t] = ("failed", ("X", "program", type(ex).__name__), self.env_cfg, e, None, self.env_gen)
             except Exception as ex:  # noqa
-                self.progs[t] = ("failed", outcome.of_exception(ex, "program"), self.env_cfg, e)
+                self.progs[t] = ("failed", outcome.of_exception(ex, "program"), self.env_cfg, e, None, self.env_gen)
+            self.last[t] = None
+            return None
+        if k == "reprog":
+            _k, t, e = ev
+            ast = self.progs[1 - t][4]
+            try:
+                self.progs[t] = ("ok", self.env.program(ast, functions=functions_of(e)), self.env_cfg, e, ast, self.env_gen)
+            except RecursionError as ex:
+                self.progs[t] = ("failed", ("X", "program", type(ex).__name__), self.env_cfg, e, None, self.env_gen)
+            except Exception as ex:  # noqa
+                self.progs[t] = ("failed", outcome.of_exception(ex, "program"), self.env_cfg, e, None, self.env_gen)
             self.last[t] = None
             return None
         if k in ("eval", "reeval"):
             t = ev[1]
             b = ev[2] if k == "eval" else self.last[t][0]
-            st, r, ci, e = self.progs[t]
+            st, r, ci, e, _ast, _gen = self.progs[t]
             if st == "failed":
                 o = r
             else:
@@ -158,11 +198,12 @@ class World:
             if p is None:
                 slots.append(None)
                 continue
-            st, r, ci, e = p
+            st, r, ci, e, ast, gen = p
             if st == "failed":
                 slots.append(("failed", r, ci, e))
                 continue
-            desc = [ci, e, self.last[t]]
+            other = self.progs[1 - t]
+            desc = [ci, e, self.last[t], gen == self.env_gen, bool(other is not None and other[0] == "ok" and other[4] is ast)]
             tp = getattr(r, "tp", None)
             if tp is not None:
                 desc.append(_ADDR.sub("0x", repr(tp.base_activation.identifiers))[:4000])
@@ -224,8 +265,9 @@ def exhaustive_shard(task):
                 k = ev[0]
                 if k == "env":
                     w2.env, w2.env_cfg = True, ev[1]
-                elif k == "prog":
-                    w2.progs[ev[1]] = True
+                    w2.env_gen += 1
+                elif k in ("prog", "reprog"):
+                    w2.progs[ev[1]] = ("ok", None, None, ev[2], None, w2.env_gen)
                     w2.last[ev[1]] = None
                 elif k == "eval":
                     w2.last[ev[1]] = True
@@ -252,7 +294,9 @@ def fmt(hist):
         if ev[0] == "env":
             out.append(f"env({'/'.join(CFGS[ev[1]])})")
         elif ev[0] == "prog":
-            out.append(f"prog({ev[1]}, {EXPRS[ev[2]]!r})")
+            out.append(f"prog({ev[1]}, {EXPRS[ev[2]]!r}{', f=hf%d' % (ev[2] - 5) if ev[2] >= 6 else ''})")
+        elif ev[0] == "reprog":
+            out.append(f"reprog({ev[1]}, from the AST of slot {1 - ev[1]}{', f=hf%d' % (ev[2] - 5) if ev[2] >= 6 else ''})")
         elif ev[0] == "eval":
             out.append(f"eval({ev[1]}, {BINDS[ev[2]]})")
         else:
@@ -293,7 +337,7 @@ def alone(ci, e, b):
     if w.env is None:
         return ("X", "env", "failed")
     w.apply(("prog", 0, e), {}, viol)
-    st, r, _ci, _e = w.progs[0]
+    st, r, _ci, _e, _ast, _gen = w.progs[0]
     if st == "failed":
         return r
     bind = make_bindings(b)
@@ -382,7 +426,7 @@ def run(ctx):
         d += 1
         if not nxt:
             closed = True
-        if len(seen) > cap_states:
+        if len(seen) > cap_states and d < maxdepth and nxt:
             ctx.caps_hit.append(f"bfs: state cap {cap_states} reached at depth {d}; everything up to depth {d} was expanded")
             break
         frontier = nxt
@@ -412,20 +456,32 @@ def run(ctx):
 
 
 def count_histories(ci_set, ei_set, bi_set, depth, prefixes):
-    """Independent count of the exhaustive space by dynamic programming over slot occupancy."""
-    nc, ne, nb = len(ci_set), len(ei_set), len(bi_set)
+    """Independent count of the exhaustive space by dynamic programming over slot occupancy
+    (a slot holds nothing, a program of a plain expression, or a program of the f(x) text, which
+    can be rebuilt from the other slot's AST with either host-function variant).  Assumes every
+    program() succeeds, which is the case on a tree where the property holds."""
     import functools
+    nc, nb = len(ci_set), len(bi_set)
+    plain = [e for e in ei_set if len([e2 for e2 in same_text(e) if e2 in ei_set]) == 1]
+    multi = [e for e in ei_set if e not in plain]
+    n_plain, n_multi = len(plain), len(multi)
 
     @functools.lru_cache(maxsize=None)
     def below(env, p0, p1, l0, l1, remaining):
-        # number of histories in the subtree rooted at a history with this occupancy (including itself)
+        # p0/p1: 0 none, else (kind, current) with kind 1 plain / 2 multi-variant text and
+        # current = the program's AST was compiled by the current environment; l0/l1: evaluated
         total = 1
         if remaining == 0:
             return total
-        total += nc * below(True, p0, p1, l0, l1, remaining - 1)
+        stale = lambda p: 0 if p == 0 else (p[0], False)  # noqa: E731
+        total += nc * below(True, stale(p0), stale(p1), l0, l1, remaining - 1)
         if env:
-            total += ne * below(env, True, p1, False, l1, remaining - 1)
-            total += ne * below(env, p0, True, l0, False, remaining - 1)
+            total += n_plain * below(env, (1, True), p1, False, l1, remaining - 1) + n_multi * below(env, (2, True), p1, False, l1, remaining - 1)
+            total += n_plain * below(env, p0, (1, True), l0, False, remaining - 1) + n_multi * below(env, p0, (2, True), l0, False, remaining - 1)
+            if p1 and p1[1]:
+                total += (1 if p1[0] == 1 else n_multi) * below(env, p1, p1, False, l1, remaining - 1)
+            if p0 and p0[1]:
+                total += (1 if p0[0] == 1 else n_multi) * below(env, p0, p0, l0, False, remaining - 1)
         if p0:
             total += nb * below(env, p0, p1, True, l1, remaining - 1)
             if l0:
@@ -439,9 +495,9 @@ def count_histories(ci_set, ei_set, bi_set, depth, prefixes):
     tot = 0
     for p in prefixes:
         if p[1][0] == "prog":
-            tot += below(True, True, False, False, False, depth - 2)
+            tot += below(True, (1 if p[1][2] in plain else 2, True), 0, False, False, depth - 2)
         else:
-            tot += below(True, False, False, False, False, depth - 2)
+            tot += below(True, 0, 0, False, False, depth - 2)
     return tot
 
 
@@ -470,7 +526,7 @@ if __name__ == "__main__":
         for ev in hist:
             if ev[0] == "env":
                 cur = ev[1]
-            elif ev[0] == "prog":
+            elif ev[0] in ("prog", "reprog"):
                 progs[ev[1]] = (cur, ev[2])
             elif ev[0] == "eval":
                 needed.add(progs[ev[1]] + (ev[2],))
